@@ -504,10 +504,10 @@ def main(tier):
     t0 = time.time()
     b = build.vbuild("asan")
     hbin = b.compile_harness(os.path.join(core.VERIF, "harness/h_send_rewrite.c"), extra_objs=SEND_OBJS)
-    ncfg = core.scaled(500 if tier == "quick" else 10000)
+    ncfg = core.scaled(1500 if tier == "quick" else 30000)
     naddr = 200
     nverp = 30
-    nhist = core.scaled(48 if tier == "quick" else 800)
+    nhist = core.scaled(96 if tier == "quick" else 1600)
     res = core.pmap(harness_worker, [(b.dir, hbin, lo, hi, naddr, nverp) for lo, hi in core.chunks(ncfg, core.JOBS * 2)],
                     timeout=3600)
     notes = []
